@@ -387,6 +387,15 @@ struct CaseOut
    double readCpu = 0;
 };
 
+// SPxLPBase::read() sends a stream starting with '*' or 'N' to the MPS reader, everything else to the LP reader
+static inline int effectiveEntry(const CaseIn& in)
+{
+   if(in.entry > MPS_RAT) return in.entry;
+   if(in.bytes.size() >= 2 && (unsigned char)in.bytes[0] == 0x1f && (unsigned char)in.bytes[1] == 0x8b) return in.entry;     // raw gzip data: first decoded byte unknown
+   bool mps = !in.bytes.empty() && (in.bytes[0] == '*' || in.bytes[0] == 'N');
+   return (mps ? MPS_REAL : LP_REAL) + (in.entry & 1);
+}
+
 static inline std::string stName(SoPlex& sp)
 {
    return statusName((int)sp.status());
